@@ -318,8 +318,17 @@ Definition or_jumps (code : list instr) : list nat :=
   let ce := conditions_end code in
   if Nat.eqb ce 0 then [] else analyze code (S (ce - 2)) [].
 
+(* positions of the jumps whose previous instruction is COPY: the jump of a value-context and/or (COPY ; POP_JUMP_IF_x ;
+   POP_TOP).  Since /repo 145f804 conditional_jump_new treats them like jumps after conditions_end. *)
+Definition value_jumps (code : list instr) : list nat :=
+  let fix go (l : list instr) (i : nat) : list nat :=
+    match l with
+    | [] => []
+    | x :: r => match x with ICopy => pos_of (S i) :: go r (S i) | _ => go r (S i) end
+    end in go code 0.
+
 (* conditional_jump_new / conditional_jump_none_impl; mk turns the popped expression into the clause operand *)
-Definition cond_jump (orj : list nat) (ce : nat) (p nextp endpos : nat) (if_true : bool)
+Definition cond_jump (orj : list nat) (ce : nat) (vcs : list nat) (p nextp endpos : nat) (if_true : bool)
            (none_test : option bool) (s : state) : option state :=
   match pop s with
   | None => None
@@ -328,7 +337,7 @@ Definition cond_jump (orj : list nat) (ce : nat) (p nextp endpos : nat) (if_true
       let '(isor, expr1) :=
         match none_test with
         | None =>
-            if Nat.leb ce p then (if_true, expr)
+            if Nat.leb ce p || existsb (Nat.eqb p) vcs then (if_true, expr)
             else if in_or then (true, if if_true then expr else DNot 0 0 expr)
             else (false, if if_true then DNot 0 0 expr else expr)
         | Some negate =>
@@ -406,7 +415,7 @@ Fixpoint yield_loop (fuel : nat) (s : state) (acc : list (list dn)) : option (li
 (* one iteration of the main loop of Decompiler.decompile for an instruction that is not the last one:
    `if pos in targets: process_target(pos)`, then the opcode method.  (The `code` the decompiler runs over enters only
    through or_jumps and conditions_end.) *)
-Definition step (orj : list nat) (ce : nat) (ins : instr) (i : nat) (s : state) : option state :=
+Definition step (orj : list nat) (ce : nat) (vcs : list nat) (ins : instr) (i : nat) (s : state) : option state :=
   let p := pos_of i in
   let nextp := pos_of (S i) in
   match (if has_target s p then process_target false p s else Some s) with
@@ -423,10 +432,10 @@ Definition step (orj : list nat) (ce : nat) (ins : instr) (i : nat) (s : state) 
                    | None => None end
       | IIs neg => match pop s0 with Some (x, s1) => Some (push (DIsNone 0 0 neg x) s1) | None => None end
       | ICopy | IPopTop => Some s0
-      | IJump c t => cond_jump orj ce p nextp t c None s0
-      | IBack c => cond_jump orj ce p nextp TOP c None s0
-      | IJumpNone c t => cond_jump orj ce p nextp t c (Some (negb c)) s0
-      | IBackNone c => cond_jump orj ce p nextp TOP c (Some (negb c)) s0
+      | IJump c t => cond_jump orj ce vcs p nextp t c None s0
+      | IBack c => cond_jump orj ce vcs p nextp TOP c None s0
+      | IJumpNone c t => cond_jump orj ce vcs p nextp t c (Some (negb c)) s0
+      | IBackNone c => cond_jump orj ce vcs p nextp TOP c (Some (negb c)) s0
       | IFwd t => jump_forward nextp t s0
       | IReturn | IYield => None          (* handled by `finish` *)
       end
@@ -458,14 +467,14 @@ Definition finish (ins : instr) (last : bool) (i : nat) (s : state) : result :=
 
 Definition is_final (ins : instr) : bool := match ins with IReturn | IYield => true | _ => false end.
 
-Fixpoint run (orj : list nat) (ce : nat) (rest : list instr) (i : nat) (s : state) : result :=
+Fixpoint run (orj : list nat) (ce : nat) (vcs : list nat) (rest : list instr) (i : nat) (s : state) : result :=
   match rest with
   | [] => RExc
   | ins :: rest' =>
       if is_final ins then finish ins (match rest' with [] => true | _ => false end) i s
-      else match step orj ce ins i s with
+      else match step orj ce vcs ins i s with
            | None => RExc
-           | Some s' => run orj ce rest' (S i) s'
+           | Some s' => run orj ce vcs rest' (S i) s'
            end
   end.
 
@@ -476,7 +485,7 @@ Definition init_state (ps : position) : state :=
   end.
 
 Definition decompile_code (ps : position) (code : list instr) : result :=
-  run (or_jumps code) (conditions_end code) code 0 (init_state ps).
+  run (or_jumps code) (conditions_end code) (value_jumps code) code 0 (init_state ps).
 
 (* the decompiled tree without the bookkeeping; comprehension / missing else-branch make it "not an expression" *)
 Inductive ptree : Type :=
